@@ -9,6 +9,10 @@
  oracle: differential run (as C01) of programs whose identifiers are drawn from the converter's own
     vocabulary in every role, plus: names handed out by the real Namer during those conversions must
     be disjoint from the identifiers of the source and of its namespace
+ oracle (visible names): ordinary programs that do NOT mention any helper name, converted inside a module that
+    defines globals (and, for a third, closure variables) named like every helper: no name the converter
+    introduced (new locals / cell variables / nested function names of the converted code object compared with
+    the original's, and every name the Namer handed out) may be a key of the function's namespace
 """
 import ast
 import os
@@ -44,6 +48,85 @@ TEMPLATE_NAMES = ['do_return', 'retval_', 'break_', 'continue_', 'lscope', 'fsco
 
 GLOBALS_PRELUDE = '\n' + '\n'.join('%s = %d' % (n, 1001 + i) for i, n in enumerate(
     ['get_state', 'set_state', 'if_body', 'else_body', 'loop_body', 'loop_test', 'itr', 'do_return', 'retval_', 'fscope'])) + '\n'
+
+
+# ---- visible-names stream: the second clause of the property (a helper never coincides with a name that is
+# visible to the function, mentioned or not).  Its module defines globals named like every helper root; it is a
+# module of its own, so the other streams keep running in a module without such globals (there they would make
+# the Namer avoid exactly the names under test).
+HELPER_ROOTS = ['break_', 'continue_', 'get_state', 'set_state', 'if_body', 'else_body', 'loop_body', 'loop_test',
+                'extra_test', 'itr', 'vars_', 'lscope', 'fscope', 'do_return', 'retval_', 'ag__lam']
+VIS_PLAIN_NAMES = ['x', 'y', 'z', 'w']
+
+
+def helper_roots():
+    """the static list plus every literal root of a new_symbol call site of this tree"""
+    roots = list(HELPER_ROOTS)
+    try:
+        for r in re.findall(r"\"'(\w+)'\"", c11_names.translate(vlib.REPO)):
+            if r not in roots:
+                roots.append(r)
+    except c11_names.Untranslatable:
+        pass
+    return roots
+
+
+def vis_prelude(roots, n):
+    return c01.PRELUDE + '\n' + '\n'.join('%s = %d' % (r, 2001 + k) for k, r in enumerate(roots)) + '\n' + \
+        '\n'.join('ag__f%d = %d' % (i, 3001 + i) for i in range(n)) + '\n'
+
+
+def vis_source(src, i, closure):
+    """module text of program i of the visible-names module; closure = helper names that are (also) variables of
+    an enclosing function, which the program keeps alive as closure variables without using them"""
+    if not closure or not src.startswith('def f('):
+        return src
+    head, body = src.split('\n', 1)
+    inner = head + '\n    keep_ = lambda: (%s,)\n' % ', '.join(closure) + body
+    return 'def mk%d():\n' % i + ''.join('    %s = %d\n' % (c, 4001 + k) for k, c in enumerate(closure)) + \
+        ''.join('    ' + l + '\n' for l in inner.rstrip('\n').split('\n')) + '    return f%d\n\n\nf%d = mk%d()\n' % (i, i, i)
+
+
+def code_names(code, top=True):
+    """names a code object binds: its locals, cell variables, the names of the functions nested in it, recursively"""
+    s = set(code.co_varnames) | set(code.co_cellvars)
+    if top:
+        s.add(code.co_name)
+    for k in code.co_consts:
+        if hasattr(k, 'co_code'):
+            s.add(k.co_name)
+            s |= code_names(k, False)
+    return set(n for n in s if n.isidentifier())
+
+
+def visible_namespace(f):
+    """(names visible to the code of f from outside, names of those that inspect_utils.getnamespace omits)"""
+    from malt.pyct import inspect_utils
+    ns = set(inspect_utils.getnamespace(f))
+    own = set(f.__globals__)
+    for nm, cell in zip(f.__code__.co_freevars, f.__closure__ or ()):
+        try:
+            cell.cell_contents
+            own.add(nm)
+        except ValueError:
+            pass
+    return ns | own | set(f.__code__.co_freevars), sorted(own - ns)
+
+
+def vis_check(f, g, handed_names):
+    """None, or the description of a helper name that coincides with a name visible to f"""
+    ns, omitted = visible_namespace(f)
+    if omitted:
+        return 'inspect_utils.getnamespace omits the name %r that is visible to the function' % omitted[0]
+    introduced = code_names(g.__code__) - code_names(f.__code__)
+    clash = sorted(introduced & ns)
+    if clash:
+        return ('the converted function binds the new name %r although a module global / closure variable of that name is '
+                'visible to the user function' % clash[0])
+    clash = sorted(set(handed_names) & ns)
+    if clash:
+        return 'the Namer handed out %r although the namespace of the function has a variable of that name' % clash[0]
+    return None
 
 
 def generate():
@@ -91,7 +174,9 @@ def check(run):
     run.rule = ('(a) seeded request sequences against malt.pyct.naming.Namer vs the Coq model; (b) seeded programs whose local '
                 'variables, parameters and loop targets are drawn from the converter vocabulary (do_return, retval_, break_, '
                 'continue_, get_state, loop_body, itr, fscope, ...), run original vs converted under decision vectors; '
-                'non-trivial = distinct program using >= 2 vocabulary names and a loop or early return')
+                'non-trivial = distinct program using >= 2 vocabulary names and a loop or early return; (c) programs that '
+                'mention no helper name, converted in a module whose globals (and closure variables) are named like every '
+                'helper: names introduced by the conversion vs the keys of the namespace of the function')
     tie_ok = True
     tie_msg = ''
     try:
@@ -143,6 +228,7 @@ def check(run):
         handed.append((r, set(self.global_namespace)))
         return r
     failures = []
+    vis_failures = []
     nprog = 70 if quick else 700
     srcs = []
     skinds = []
@@ -217,6 +303,34 @@ def check(run):
             if len(run.samples) < 3 and i >= len(csrcs):
                 run.sample({'program': src, 'names_generated': sorted(set(n for n, _ in handed))})
         run.extra['programs'] = len(allsrc)
+        # (c) visible names
+        roots = helper_roots()
+        vsrcs = [t.replace('{n}', 'e1') for t in TEMPLATES]
+        for it in range(24 if quick else 240):
+            opts = progs.Opts(loop_else=False, reads='safe', names=list(VIS_PLAIN_NAMES), max_stmts=10 if it % 2 else 5,
+                              fresh_for_targets=True, nested_def=it % 2 == 0)
+            vsrcs.append(progs.gen_function(rnd, opts))
+        vclos = [sorted(rnd.sample(roots, 4)) if (i % 3 == 1 and sv.startswith('def f(')) else None for i, sv in enumerate(vsrcs)]
+        vprelude = vis_prelude(roots, len(vsrcs))
+        modv = convrun.load_module([vis_source(sv, i, vclos[i]) for i, sv in enumerate(vsrcs)], vprelude)
+        nvis = 0
+        for i, sv in enumerate(vsrcs):
+            f = getattr(modv, 'f%d' % i)
+            del handed[:]
+            try:
+                g = c01.convert(f, True, None)
+            except Exception as e:  # noqa
+                vis_failures.append(('conversion failed with %s: %s' % (type(e).__name__, str(e)[:200]), sv, vclos[i]))
+                continue
+            run.count()
+            nvis += 1
+            if len(code_names(g.__code__) - code_names(f.__code__)) >= 3:
+                run.nontriv('visible:' + sv)
+            what = vis_check(f, g, [nm for nm, _ in handed])
+            if what:
+                vis_failures.append((what, sv, vclos[i]))
+        run.extra['visible_name_programs'] = nvis
+        run.extra['visible_name_roots'] = roots
     finally:
         naming.Namer.new_symbol = orig_new
         convrun.cleanup()
@@ -228,6 +342,16 @@ def check(run):
         seen.add(key)
         run.violation('conversion changed the meaning of a user name / helper name clash: ' + what,
                       {'program': src, 'decisions': dv, 'recursive': True, 'features': 'None', 'prelude': c01.PRELUDE})
+    # the smallest program of the visible-names stream that fails, per kind of failure
+    for what, src, clos in sorted(vis_failures, key=lambda t: (len(t[1]), t[1])):
+        key = 'visible:' + re.sub(r"\d+|'\w+'", 'N', what)[:60]
+        if key in seen:
+            continue
+        seen.add(key)
+        run.violation('a name introduced by the converter coincides with a name visible to the user function: ' + what,
+                      {'kind': 'visible_names', 'program': src, 'closure': clos, 'roots': roots,
+                       'how': 'the program is function f0 of a module that defines the globals named in roots (see replay())'})
+    failures = failures + vis_failures
     if not failures and (not tie_ok or corr_bad):
         run.violation('tie between the Namer model and the code broke: ' + (tie_msg or corr_bad),
                       {'broken': tie_msg or corr_bad, 'searched': 'vocabulary programs: no failing input'}, found_input=False)
@@ -236,4 +360,30 @@ def check(run):
 
 
 def replay(path):
-    return c01.replay(path)
+    import json
+    doc = json.load(open(path))
+    rp = doc.get('replay', {})
+    if rp.get('kind') != 'visible_names':
+        return c01.replay(path)
+    from malt.pyct import naming
+    handed = []
+    orig_new = naming.Namer.new_symbol
+
+    def spy(self, name_root, reserved_locals):
+        r = orig_new(self, name_root, reserved_locals)
+        handed.append(r)
+        return r
+    naming.Namer.new_symbol = spy
+    try:
+        text = vis_source(rp['program'], 0, rp.get('closure'))
+        mod = convrun.load_module([text], vis_prelude(rp['roots'], 1))
+        g = c01.convert(mod.f0, True, None)
+        what = vis_check(mod.f0, g, handed)
+        print(text)
+        print('module globals / closure variables defined next to it:', ', '.join(rp['roots'] + ['ag__f0']))
+        print('names introduced by the conversion:', sorted(code_names(g.__code__) - code_names(mod.f0.__code__)))
+        print(what or 'no clash')
+        return 1 if what else 0
+    finally:
+        naming.Namer.new_symbol = orig_new
+        convrun.cleanup()
